@@ -252,8 +252,22 @@ impl NativeFunctionCall {
             return Ok(self.call_list_increment_operation(params));
         }
 
-        let v1 = params[0].clone().into_any().downcast::<Value>().unwrap();
-        let v2 = params[1].clone().into_any().downcast::<Value>().unwrap();
+        let not_a_value = || {
+            StoryError::InvalidStoryState(format!(
+                "Attempting to perform {} on a void value. Did you forget to 'return' a value from a function you called here?",
+                Self::get_name(self.op)
+            ))
+        };
+        let v1 = params[0]
+            .clone()
+            .into_any()
+            .downcast::<Value>()
+            .map_err(|_| not_a_value())?;
+        let v2 = params[1]
+            .clone()
+            .into_any()
+            .downcast::<Value>()
+            .map_err(|_| not_a_value())?;
 
         // And/or with any other type requires coercion to bool
         if (self.op == Op::And || self.op == Op::Or)
@@ -297,9 +311,9 @@ impl NativeFunctionCall {
         for (list_item, list_item_value) in list_val.items.iter() {
             let target_int = {
                 if self.op == Op::Add {
-                    list_item_value + int_val
+                    list_item_value.wrapping_add(int_val)
                 } else {
-                    list_item_value - int_val
+                    list_item_value.wrapping_sub(int_val)
                 }
             };
 
